@@ -120,6 +120,17 @@ Lemma predict_row_dependence : forall (m : model) (X X' : mat) i i', (forall j, 
   predict o m X i = predict o m X' i'.
 Proof. intros m X X' i i' H. unfold predict, predict_proba. apply argmax_row_ext. apply infer_row_dependence, H. Qed.
 
+Lemma infer_predict_row_dependence : forall (m : model) (X X' : mat) i i', (forall j, j < n_features m -> X i j = X' i' j) ->
+  (forall k, infer o m X i k = infer o m X' i' k) /\ predict o m X i = predict o m X' i'.
+Proof. intros m X X' i i' H. split; [exact (infer_row_dependence m X X' i i' H) | exact (predict_row_dependence m X X' i i' H)]. Qed.
+
+Lemma retained_state_irrelevant : forall d h K (W1 : mat) (b1 : vec) (W2 : mat) (b2 : vec) (Ws : mat) (H_ : option mat) (retain : bool) (X : mat),
+  (fst (mlp_infer_st o d h K W1 b1 W2 b2 H_ retain X) = mlp_infer o d h K W1 b1 W2 b2 X /\
+   snd (mlp_infer_st o d h K W1 b1 W2 b2 H_ false X) = H_) /\
+  (fst (sparse_mlp_infer_st o d h K W1 b1 W2 b2 Ws H_ retain X) = sparse_mlp_infer o d h K W1 b1 W2 b2 Ws X /\
+   snd (sparse_mlp_infer_st o d h K W1 b1 W2 b2 Ws H_ false X) = H_).
+Proof. intros. split; [apply mlp_retain_irrelevant | apply sparse_mlp_retain_irrelevant]. Qed.
+
 (* ------------------------------------------------------------------ 3. KernelRIM *)
 (* what is assumed of the oracle (sklearn pairwise_kernels / the user's callable): row i of kernel(A, B)
    is determined by row i of A and by B. *)
@@ -161,6 +172,19 @@ Proof.
   - intros i. rewrite Hl. reflexivity.
 Qed.
 End KRIM.
+
+Lemma kernel_rim_rowwise : forall (kern : mat -> mat -> mat), kernel_rowwise kern ->
+  (forall (m : krim) (r : nat -> nat) (X : mat),
+     (forall i k, krim_predict_proba o kern m (select r X) i k = select r (krim_predict_proba o kern m X) i k) /\
+     (forall i, krim_predict o kern m (select r X) i = select_vec r (krim_predict o kern m X) i)) /\
+  (forall ntrain K (Xtrain W : mat) (b : vec) (r : nat -> nat),
+     let m := krim_fit_store kern ntrain K Xtrain W b in
+     (forall i t, krim_compute_kernel kern m Xtrain i t = kr_train_kernel m i t) /\
+     (forall i k, krim_predict_proba o kern m Xtrain i k = krim_fit_proba o m i k) /\
+     (forall i, krim_predict o kern m Xtrain i = krim_fit_labels o m i) /\
+     (forall i k, krim_predict_proba o kern m (select r Xtrain) i k = krim_fit_proba o m (r i) k) /\
+     (forall i, krim_predict o kern m (select r Xtrain) i = krim_fit_labels o m (r i))).
+Proof. intros kern H. split; [exact (krim_rowwise kern H) | exact (krim_train kern H)]. Qed.
 
 (* ------------------------------------------------------------------ 4. Tree.predict *)
 Lemma scatter_Forall2 {A : Type} (g : A -> bool) (R1 R2 : A -> Z -> Prop) : forall X pl pr,
